@@ -140,6 +140,23 @@ def observe_interp(x, y, lab, dtype="float64", seed=0, labtype="float", supports
     nc = len(lab)
     cols = [np.full((nc, 1), C1), np.full((nc, 1), C2), np.eye(nc) * AMP, rng.normal(0, 50, (nc, 6)),
             1e4 + rng.normal(0, 1, (nc, 2)), rng.integers(-500, 500, (nc, 2)).astype(float)]
+    # two more samples at which channels that are no source of any repair hold NaN / inf (a dead channel normalised by its own
+    # zero deviation; a clipped sample far away): a repaired channel is a combination of its sources only, so it stays finite
+    bad0 = np.isin(np.asarray(lab), (1, 2))
+    xs0, ys0 = np.asarray(x, dtype=float), np.asarray(y, dtype=float)
+    srcs = np.zeros(nc, dtype=bool)
+    for i in np.where(bad0)[0]:
+        if supports is None:
+            srcs |= (np.exp(-(np.hypot(xs0 - xs0[i], ys0 - ys0[i]) / 20.0) ** 1.3) >= 0.005) & ~bad0
+        else:
+            srcs[np.asarray(supports[int(i) + 1], dtype=int) - 1] = True
+    poison = rng.normal(0, 50, (nc, 2))
+    free = np.where(~srcs & ~bad0)[0]
+    poison[bad0, 0] = np.nan
+    if free.size:
+        poison[free[rng.integers(0, free.size)], 0] = np.nan
+        poison[free[rng.integers(0, free.size)], 1] = np.inf
+    cols.append(poison)
     data0 = np.ascontiguousarray(np.hstack(cols).astype(dtype))
     frng = np.random.default_rng(seed + 1)
     labels = _handover(np.asarray(lab, dtype=form.get("labdt") or LABDT.get(labtype, labtype)), form.get("labform", "plain"), frng)
@@ -174,7 +191,7 @@ def observe_interp(x, y, lab, dtype="float64", seed=0, labtype="float", supports
     xs, ys = np.asarray(x, dtype=float), np.asarray(y, dtype=float)
     # single-precision coordinates make single-precision weights: the float32 tolerance applies there as well
     single = dtype != "float64" or form.get("xydt") == "float32"
-    tol = (1e-5 if single else 1e-12) * max(1.0, float(np.abs(data0).max()))
+    tol = (1e-5 if single else 1e-12) * max(1.0, float(np.abs(data0[np.isfinite(data0)]).max()))
     for i in np.where(bad)[0]:
         if supports is None:
             w = np.exp(-(np.hypot(xs - xs[i], ys - ys[i]) / 20.0) ** 1.3)
